@@ -1,6 +1,67 @@
 package main
 
-func leveldbFeature(repo, out string, replace map[string]string) {
-	die("leveldb feature not built yet")
+import (
+	"os"
+	"path/filepath"
+	"strings"
+)
+
+// rewrite replaces exactly `want` occurrences of old in s.
+func rewrite(file, s, old, new string, want int) string {
+	if n := strings.Count(s, old); n != want {
+		die("%s: anchor %q found %d times, expected %d", file, old, n, want)
+	}
+	return strings.ReplaceAll(s, old, new)
 }
-func schedFeature(repo, out string, replace map[string]string) { die("sched feature not built yet") }
+
+// leveldbFeature routes every physical LevelDB write call of middleware/db through the
+// H2 hook functions (verif_storage.go), which notify the harness and then perform the
+// identical call.
+func leveldbFeature(repo, out string, replace map[string]string) {
+	dir := filepath.Join(repo, "src", "middleware", "db")
+	if _, err := os.Stat(filepath.Join(dir, "verif_storage.go")); err != nil {
+		die("hook file missing: %v", err)
+	}
+	{
+		f := filepath.Join(dir, "leveldb.go")
+		b, err := os.ReadFile(f)
+		if err != nil {
+			die("%v", err)
+		}
+		s := string(b)
+		s = rewrite(f, s, "leveldb.OpenFile(file,", "verifOpenFile(file,", 1)
+		s = rewrite(f, s, "db.db.Put(key, value, nil)", "verifPut(db.db, key, value, nil)", 1)
+		s = rewrite(f, s, "db.db.Delete(key, nil)", "verifDelete(db.db, key, nil)", 1)
+		s = rewrite(f, s, "b.db.Write(b.b, nil)", "verifWrite(b.db, b.b, nil)", 1)
+		p := filepath.Join(out, "db_leveldb.go")
+		os.WriteFile(p, []byte(s), 0o644)
+		replace[f] = p
+	}
+	{
+		f := filepath.Join(dir, "database.go")
+		b, err := os.ReadFile(f)
+		if err != nil {
+			die("%v", err)
+		}
+		s := string(b)
+		s = rewrite(f, s, "b.db.Write(b.b, nil)", "verifWrite(b.db, b.b, nil)", 1)
+		p := filepath.Join(out, "db_database.go")
+		os.WriteFile(p, []byte(s), 0o644)
+		replace[f] = p
+	}
+	// any other direct write on a *leveldb.DB in the package would escape the hook
+	ents, _ := os.ReadDir(dir)
+	for _, e := range ents {
+		n := e.Name()
+		if !strings.HasSuffix(n, ".go") || strings.HasSuffix(n, "_test.go") || n == "leveldb.go" || n == "database.go" || strings.HasPrefix(n, "verif_") {
+			continue
+		}
+		b, _ := os.ReadFile(filepath.Join(dir, n))
+		if strings.Contains(string(b), "leveldb.") && (strings.Contains(string(b), ".Write(") || strings.Contains(string(b), ".Put(")) {
+			// lru/mem databases do not use leveldb; a new leveldb user must be instrumented
+			if strings.Contains(string(b), "*leveldb.DB") {
+				die("%s uses *leveldb.DB directly and is not instrumented", n)
+			}
+		}
+	}
+}
